@@ -28,6 +28,7 @@ import Fir.Proofs.SimdU16x4Lemmas
 import Fir.Proofs.SimdU16x2Lemmas
 import Fir.Proofs.SimdU16x3Lemmas
 import Fir.Proofs.SimdPassIntLemmas
+import Fir.Proofs.SimdU16x4ALemmas
 
 namespace Fir.C02
 open Fir
@@ -628,5 +629,35 @@ theorem u16x4_sse4_uniform (p : Nat) (row : List Int) (start : Nat) (ks : List I
   · intro i h1 h2
     simp only [List.getElem_map, List.getElem_range, List.getElem_replicate]
     exact hrow _
+
+/-! ### RGBA16 on AVX2 (src/convolution/u16x4/avx2.rs)
+
+    The four-row kernel keeps two rows per 256-bit register, one per 128-bit half, with the SSE4.1 kernel's instructions (every mask's
+    halves are the SSE4.1 masks; call sequence pinned): each of its rows is `Fir.SimdU16x4.pixel`.  The one-row kernel puts pixels 0, 1 of
+    a 4-step into the low half and 2, 3 into the high half, one pixel per half in its 2-step, the last coefficient into the low half,
+    and joins the halves at the end (`rg_buf[0] + rg_buf[2] + half_error`); it is modelled as `Fir.SimdU16x4A.pixelA` and equals the
+    portable kernel - hence the SSE4.1 kernel - for every precision, coefficient list and row. -/
+
+theorem u16x4_avx2_one_row_eq_portable (p : Nat) (row : List Int) (start : Nat) (ks : List Int) :
+    Fir.SimdU16x4A.pixelA p row start ks
+      = [clip16 (2 ^ (p - 1) + Fir.SimdU16x4.dotC16 row 0 ks start) p, clip16 (2 ^ (p - 1) + Fir.SimdU16x4.dotC16 row 1 ks start) p,
+         clip16 (2 ^ (p - 1) + Fir.SimdU16x4.dotC16 row 2 ks start) p, clip16 (2 ^ (p - 1) + Fir.SimdU16x4.dotC16 row 3 ks start) p] :=
+  Fir.Proofs.U16x4A.pixelA_eq_portable p row start ks
+
+theorem u16x4_one_row_avx2_eq_sse4 (p : Nat) (row : List Int) (start : Nat) (ks : List Int) :
+    Fir.SimdU16x4A.pixelA p row start ks = Fir.SimdU16x4.pixel p row start ks := by
+  rw [u16x4_avx2_one_row_eq_portable, u16x4_sse4_eq_portable]
+
+theorem u16x4_avx2_four_rows_masks :
+    Fir.Gen.u16x4_avx2_four_rg0_lo = Fir.Gen.u16x4_sse4_rg0 ∧ Fir.Gen.u16x4_avx2_four_rg0_hi = Fir.Gen.u16x4_sse4_rg0 ∧
+    Fir.Gen.u16x4_avx2_four_rg1_lo = Fir.Gen.u16x4_sse4_rg1 ∧ Fir.Gen.u16x4_avx2_four_rg1_hi = Fir.Gen.u16x4_sse4_rg1 ∧
+    Fir.Gen.u16x4_avx2_four_ba0_lo = Fir.Gen.u16x4_sse4_ba0 ∧ Fir.Gen.u16x4_avx2_four_ba0_hi = Fir.Gen.u16x4_sse4_ba0 ∧
+    Fir.Gen.u16x4_avx2_four_ba1_lo = Fir.Gen.u16x4_sse4_ba1 ∧ Fir.Gen.u16x4_avx2_four_ba1_hi = Fir.Gen.u16x4_sse4_ba1 := by
+  refine ⟨?_, ?_, ?_, ?_, ?_, ?_, ?_, ?_⟩ <;> decide
+
+theorem u16x4_avx2_source_as_modelled :
+    Fir.Gen.u16x4_avx2_one_row_skeleton = "normalizer.precision() ; _mm256_setzero_si256() ; _mm256_setzero_si256() ; chunks_exact(4) ; remainder() ; _mm256_set_epi64x(k[2] as i64, k[2] as i64, k[0] as i64, k[0] as i64) ; _mm256_set_epi64x(k[3] as i64, k[3] as i64, k[1] as i64, k[1] as i64) ; simd_utils::loadu_si256(src_row, x) ; _mm256_shuffle_epi8(source, rg02_shuffle) ; _mm256_add_epi64(rg_sum, _mm256_mul_epi32(rg_i64x4, coeff02_i64x4)) ; _mm256_shuffle_epi8(source, rg13_shuffle) ; _mm256_add_epi64(rg_sum, _mm256_mul_epi32(rg_i64x4, coeff13_i64x4)) ; _mm256_shuffle_epi8(source, ba02_shuffle) ; _mm256_add_epi64(ba_sum, _mm256_mul_epi32(ba_i64x4, coeff02_i64x4)) ; _mm256_shuffle_epi8(source, ba13_shuffle) ; _mm256_add_epi64(ba_sum, _mm256_mul_epi32(ba_i64x4, coeff13_i64x4)) ; chunks_exact(2) ; remainder() ; _mm256_set_epi64x(k[1] as i64, k[1] as i64, k[0] as i64, k[0] as i64) ; _mm256_set_m128i(simd_utils::loadl_epi64(src_row, x + 1), simd_utils::loadl_epi64(src_row, x),) ; _mm256_shuffle_epi8(source, rg02_shuffle) ; _mm256_add_epi64(rg_sum, _mm256_mul_epi32(rg_i64x4, coeff01_i64x4)) ; _mm256_shuffle_epi8(source, ba02_shuffle) ; _mm256_add_epi64(ba_sum, _mm256_mul_epi32(ba_i64x4, coeff01_i64x4)) ; first() ; _mm256_set_epi64x(0, 0, k as i64, k as i64) ; _mm256_set_m128i(_mm_setzero_si128(), simd_utils::loadl_epi64(src_row, x)) ; _mm256_shuffle_epi8(source, rg02_shuffle) ; _mm256_add_epi64(rg_sum, _mm256_mul_epi32(rg_i64x4, coeff_i64x4)) ; _mm256_shuffle_epi8(source, ba02_shuffle) ; _mm256_add_epi64(ba_sum, _mm256_mul_epi32(ba_i64x4, coeff_i64x4)) ; _mm256_storeu_si256(rg_buf.as_mut_ptr() as *mut __m256i, rg_sum) ; _mm256_storeu_si256(ba_buf.as_mut_ptr() as *mut __m256i, ba_sum) ; normalizer.clip(rg_buf[0] + rg_buf[2] + half_error) ; normalizer.clip(rg_buf[1] + rg_buf[3] + half_error) ; normalizer.clip(ba_buf[0] + ba_buf[2] + half_error) ; normalizer.clip(ba_buf[1] + ba_buf[3] + half_error)" ∧
+    Fir.Gen.u16x4_avx2_four_rows_skeleton = "normalizer.precision() ; _mm256_set1_epi64x(half_error) ; _mm256_set1_epi64x(half_error) ; chunks_exact(2) ; remainder() ; _mm256_set1_epi64x(k[0] as i64) ; _mm256_set1_epi64x(k[1] as i64) ; _mm256_set_m128i(simd_utils::loadu_si128(src_rows[i * 2 + 1], x), simd_utils::loadu_si128(src_rows[i * 2], x),) ; _mm256_shuffle_epi8(source, rg0_shuffle) ; _mm256_add_epi64(sum, _mm256_mul_epi32(rg_i64x4, coeff0_i64x4)) ; _mm256_shuffle_epi8(source, rg1_shuffle) ; _mm256_add_epi64(sum, _mm256_mul_epi32(rg_i64x4, coeff1_i64x4)) ; _mm256_shuffle_epi8(source, ba0_shuffle) ; _mm256_add_epi64(sum, _mm256_mul_epi32(ba_i64x4, coeff0_i64x4)) ; _mm256_shuffle_epi8(source, ba1_shuffle) ; _mm256_add_epi64(sum, _mm256_mul_epi32(ba_i64x4, coeff1_i64x4)) ; first() ; _mm256_set1_epi64x(k as i64) ; _mm256_set_m128i(simd_utils::loadl_epi64(src_rows[i * 2 + 1], x), simd_utils::loadl_epi64(src_rows[i * 2], x),) ; _mm256_shuffle_epi8(source, rg0_shuffle) ; _mm256_add_epi64(sum, _mm256_mul_epi32(rg_i64x4, coeff0_i64x4)) ; _mm256_shuffle_epi8(source, ba0_shuffle) ; _mm256_add_epi64(sum, _mm256_mul_epi32(ba_i64x4, coeff0_i64x4)) ; _mm256_storeu_si256(rg_buf.as_mut_ptr() as *mut __m256i, rg_sum[i]) ; _mm256_storeu_si256(ba_buf.as_mut_ptr() as *mut __m256i, ba_sum[i]) ; normalizer.clip(rg_buf[0]) ; normalizer.clip(rg_buf[1]) ; normalizer.clip(ba_buf[0]) ; normalizer.clip(ba_buf[1]) ; normalizer.clip(rg_buf[2]) ; normalizer.clip(rg_buf[3]) ; normalizer.clip(ba_buf[2]) ; normalizer.clip(ba_buf[3])" := by
+  constructor <;> rfl
 
 end Fir.C02
